@@ -14,10 +14,13 @@ def c18_clip_range(facts):
 
 
 def c06_rank_deficient(facts):
-    """Input whose rank is below min(m, n), or a wide input whose leading m x m block is rank deficient."""
+    """Input whose rank is below min(m, n), or a wide input whose leading m x m block is rank deficient, and the only
+    failing clause is the orthonormality of Q."""
     if not facts or "rank" not in facts:
         return False
-    return facts["rank"] < min(facts["m"], facts["n"]) or (facts.get("wide") and not facts.get("leading_block_full_rank", True))
+    deficient = facts["rank"] < min(facts["m"], facts["n"]) or (facts.get("wide") and not facts.get("leading_block_full_rank", True))
+    # the finding is: Q loses orthonormality; A = Q R and the triangular shape still hold there - any other failure is not this finding
+    return bool(deficient and facts.get("failures", ["Q columns not orthonormal"]) == ["Q columns not orthonormal"])
 
 
 def c05_repeated(facts):
